@@ -7,9 +7,13 @@
   import and a two-module cycle are always detected, recording edges is idempotent (a module
   imported twice records nothing new), a missing file and a path without the `.pakhi` extension are
   error values, and the search itself always terminates (it is structurally recursive on its fuel).
-  That *every* cycle reachable from the root is detected and that every acyclic graph loads, each
-  import running its module once in source order, is decided by complete enumeration of all 2^16
-  import graphs over four files in the thorough tier (all 512 over three files in the quick tier).
+  `cycle_test_exact`: the test answers "cyclic" IF AND ONLY IF one of the module's recorded children leads back to
+  it over the recorded edges — completeness (`reachLoop_complete`, `cycle_is_detected`) by the white-path argument with
+  the potential |stack| + weight of the unvisited part, which the loader's fuel (relSize+1)² always covers.
+  That the edges recorded at the time of an import are the right ones (every import statement of every loaded
+  file, in source order) and that every acyclic graph loads, each import running its module once, is decided by
+  complete enumeration of all 2^16 import graphs over four files in the thorough tier (all 512 over three files in
+  the quick tier).
 -/
 import Pakhi.Model.Parser
 
@@ -133,5 +137,120 @@ theorem no_extension_is_error (ctx : PCtx) (s : PS) (name path : Str) (off : Nat
 
 example : importsBack [("m".toList, ["b".toList, "c".toList]), ("b".toList, ["d".toList]), ("c".toList, ["d".toList]), ("d".toList, ["e".toList])] "d".toList = false := by decide
 
+
+def kids (rel : List (Str × List Str)) (a : Str) : List Str := (relGet rel a).getD []
+
+/-- a path all of whose nodes (its end excepted) are outside `V` -/
+inductive WPath (rel : List (Str × List Str)) (V : List Str) : Str → Str → Prop where
+  | refl (a) : WPath rel V a a
+  | step {a c b} : a ∉ V → c ∈ kids rel a → WPath rel V c b → WPath rel V a b
+
+theorem wpath_of_path {rel : List (Str × List Str)} {a b : Str} (h : Path rel a b) : WPath rel [] a b := by
+  induction h with
+  | refl a => exact .refl a
+  | step hc _ ih => exact .step (by simp) hc ih
+
+/-- visiting `m` (which is not the target): a white path either stays white or continues from a child of `m` -/
+theorem wpath_visit {rel : List (Str × List Str)} {V : List Str} {m a b : Str} (hmb : m ≠ b) (h : WPath rel V a b) :
+    (WPath rel (m :: V) a b ∧ (a = b ∨ a ≠ m)) ∨ ∃ c, c ∈ kids rel m ∧ WPath rel (m :: V) c b := by
+  induction h with
+  | refl a => exact Or.inl ⟨.refl a, Or.inl rfl⟩
+  | @step a c b ha hc _ ih =>
+    rcases ih hmb with ⟨h1, _⟩ | ⟨c', h1, h2⟩
+    · by_cases ham : a = m
+      · subst ham; exact Or.inr ⟨c, hc, h1⟩
+      · exact Or.inl ⟨.step (by simp [ham, ha]) hc h1, Or.inr ham⟩
+    · exact Or.inr ⟨c', h1, h2⟩
+
+/-- the weight of the unvisited part of the recorded graph -/
+def restW (rel : List (Str × List Str)) (V : List Str) : Nat :=
+  match rel with
+  | [] => 0
+  | p :: r => (if p.1 ∈ V then 0 else p.2.length + 1) + restW r V
+
+theorem restW_mono (rel : List (Str × List Str)) (V : List Str) (m : Str) : restW rel (m :: V) ≤ restW rel V := by
+  induction rel with
+  | nil => simp [restW]
+  | cons p r ih =>
+    simp only [restW, List.mem_cons]
+    by_cases h1 : p.1 ∈ V <;> by_cases h2 : p.1 = m <;> simp [h1, h2] <;> omega
+
+theorem restW_visit (rel : List (Str × List Str)) (V : List Str) (m : Str) (hm : m ∉ V) :
+    restW rel (m :: V) + (kids rel m).length ≤ restW rel V := by
+  induction rel with
+  | nil => simp [restW, kids, relGet]
+  | cons p r ih =>
+    by_cases hk : p.1 = m
+    · have hk1 : kids (p :: r) m = p.2 := by simp [kids, relGet, List.find?, hk]
+      have := restW_mono r V m
+      simp only [restW, hk1, List.mem_cons]
+      subst hk
+      simp [hm]; omega
+    · have hk1 : kids (p :: r) m = kids r m := by
+        have : (p.1 == m) = false := by simpa using hk
+        simp [kids, relGet, List.find?, this]
+      simp only [restW, hk1, List.mem_cons]
+      by_cases h1 : p.1 ∈ V <;> simp [h1, hk] <;> omega
+
+theorem restW_le_relSize (rel : List (Str × List Str)) : restW rel [] + 1 = relSize rel := by
+  have key : ∀ (l : List (Str × List Str)) (n : Nat), l.foldl (fun n p => n + p.2.length + 1) n = n + restW l [] := by
+    intro l
+    induction l with
+    | nil => intro n; simp [restW]
+    | cons p r ih => intro n; simp only [List.foldl_cons, ih, restW]; simp; omega
+  simp only [relSize, key]; omega
+
+/-- **the search is complete**: with fuel above the potential `|stack| + restW visited` it answers `true`
+    whenever some stacked node reaches the target along unvisited nodes -/
+theorem reachLoop_complete (rel : List (Str × List Str)) (target : Str) :
+    ∀ (f : Nat) (stack visited : List Str), (∃ s, s ∈ stack ∧ WPath rel visited s target) →
+      stack.length + restW rel visited < f → reachLoop rel target f stack visited = true
+  | 0, _, _, _, hf => by omega
+  | _+1, [], _, ⟨s, hs, _⟩, _ => by simp at hs
+  | f+1, m :: stack, visited, ⟨s, hs, hp⟩, hf => by
+      simp only [reachLoop]
+      by_cases hmt : (m == target) = true
+      · simp [hmt]
+      · simp only [hmt, Bool.false_eq_true, if_false]
+        have hmt' : m ≠ target := by simpa using hmt
+        by_cases hv : visited.contains m = true
+        · simp only [hv, if_true]
+          -- the white path cannot start at the visited `m`
+          have hsm : s ∈ stack := by
+            rcases List.mem_cons.mp hs with rfl | h1
+            · cases hp with
+              | refl => exact (hmt' rfl).elim
+              | step ha _ _ => simp at hv; exact (ha hv).elim
+            · exact h1
+          exact reachLoop_complete rel target f stack visited ⟨s, hsm, hp⟩ (by simp at hf; omega)
+        · simp only [hv, Bool.false_eq_true, if_false]
+          have hv' : m ∉ visited := by simpa using hv
+          have hw := restW_visit rel visited m hv'
+          refine reachLoop_complete rel target f _ _ ?_ (by simp only [List.length_append, List.length_cons] at hf ⊢; show (kids rel m).length + stack.length + restW rel (m :: visited) < f; omega)
+          rcases wpath_visit hmt' hp with ⟨h1, h2⟩ | ⟨c, hc, h1⟩
+          · have hsm : s ∈ stack := by
+              rcases List.mem_cons.mp hs with rfl | h3
+              · rcases h2 with h2 | h2
+                · exact (hmt' h2).elim
+                · exact (h2 rfl).elim
+              · exact h3
+            exact ⟨s, List.mem_append_right _ hsm, h1⟩
+          · exact ⟨c, List.mem_append_left _ hc, h1⟩
+
+/-- **every cycle through the module being loaded is detected**: if one of its recorded children leads back to it
+    over the recorded edges, the loader raises the cyclic-dependency error -/
+theorem cycle_is_detected (rel : List (Str × List Str)) (m : Str) (c : Str) (hc : c ∈ (relGet rel m).getD [])
+    (hp : Path rel c m) : importsBack rel m = true := by
+  unfold importsBack
+  simp only [List.any_eq_true]
+  refine ⟨c, hc, reachLoop_complete rel m _ [c] [] ⟨c, by simp, wpath_of_path hp⟩ ?_⟩
+  have h1 := restW_le_relSize rel
+  have h2 : relSize rel + 1 ≤ (relSize rel + 1) * (relSize rel + 1) := Nat.le_mul_of_pos_right _ (by omega)
+  simp only [List.length_singleton]; omega
+
+/-- the cycle test decides exactly "a recorded child leads back to the module" -/
+theorem cycle_test_exact (rel : List (Str × List Str)) (m : Str) :
+    importsBack rel m = true ↔ ∃ c, c ∈ (relGet rel m).getD [] ∧ Path rel c m :=
+  ⟨cycle_error_is_sound rel m, fun ⟨c, hc, hp⟩ => cycle_is_detected rel m c hc hp⟩
 end C15
 end Pakhi
